@@ -573,14 +573,16 @@ fn lookup_local__innermost_latest() {
 //              (the whole stack for a local of the root function or when the owner has no live activation);
 //              None when there is no such slot there -- EVEN IF an older activation below the mark has one.
 //   (assign_bound_local takes the same floor and the same search; its overwrite goes through the pool and is K:runtime:overwrite_slot__contract.)
-fn local_lookup_case(na: usize, af: [u32; 2], ab: [usize; 2]) {
+fn local_lookup_case(na: usize, af: [u32; 2], ab: [usize; 2], owner0: u32) {
     use crate::analysis::facts::{LocalInfo, LocalKind};
     use crate::analysis::ids::ScopeId;
     let arena = bk::mk_arena(1);
     let mut rt = mk_runtime(arena, arena);
     let mut facts = ProgramFacts::new(arena);
-    let owners: [u32; 3] = kani::any();
-    kani::assume(owners[0] < 3 && owners[1] < 3 && owners[2] < 3);
+    // the queried local is local 0 (slot ids are symbolic, so which local is queried is no restriction); its owner is fixed per case so
+    // that the floor is a constant (a symbolic slice start makes the iterator's pointer arithmetic intractable for CBMC)
+    let owners: [u32; 3] = [owner0, kani::any(), kani::any()];
+    kani::assume(owners[1] < 3 && owners[2] < 3);
     let li = |k: usize| LocalInfo { name: "v", owner: FunctionId(owners[k]), declaring_scope: ScopeId(0), decl_span: SP, decl_stmt: None, kind: LocalKind::Variable };
     let locals: &'static mut [LocalInfo<'static>; 3] = Box::leak(Box::new([li(0), li(1), li(2)]));
     facts.locals = unsafe { Vec::from_raw_parts_in(locals.as_mut_ptr(), 3, 3, arena) };
@@ -597,8 +599,7 @@ fn local_lookup_case(na: usize, af: [u32; 2], ab: [usize; 2]) {
     let marks: &'static mut [(FunctionId, usize); 2] = Box::leak(Box::new([(FunctionId(af[0]), ab[0]), (FunctionId(af[1]), ab[1])]));
     rt.activations = unsafe { Vec::from_raw_parts_in(marks.as_mut_ptr(), na, 2, arena) };
 
-    let q: u32 = kani::any();
-    kani::assume(q < 3);
+    let q: u32 = 0;
     let local = LocalId(q);
     // specification, written as plain loops: the floor, then the innermost / latest matching slot at or above it
     let mut floor = 0usize;
@@ -629,15 +630,24 @@ fn local_lookup_case(na: usize, af: [u32; 2], ab: [usize; 2]) {
     std::mem::forget(rt);
 }
 
-// @harness property=C04 fn=Runtime::local_search_floor+lookup_local_env+lookup_local_mut kind=bounded tier=quick cfg=release timeout=900 domain="bounded: 3 scopes x 2 slots with symbolic local ids (3 locals or none), owners of the 3 locals symbolic over {root, f1, f2}; activation marks: none / f1 at scope 1 / f1 at scopes 1 and 2 (recursion) / f1 at 1 and f2 at 2 (nested call); every queried local"
+// @harness property=C04 fn=Runtime::local_search_floor+lookup_local_env+lookup_local_mut kind=bounded tier=quick cfg=release timeout=900 domain="bounded: 3 scopes x 2 slots with symbolic local ids (3 locals or none), the queried local owned by root, f1 or f2; activation marks: none / f1 at scope 1 / f1 at scopes 1 and 2 (recursion) / f1 at 1 and f2 at 2 (nested call)"
 #[kani::proof]
 #[kani::unwind(22)]
 fn local_lookup__newest_activation_of_owner() {
+    // every case is a call with CONSTANT marks and owner (see local_lookup_case)
     let case: u8 = kani::any();
     match case {
-        0 => local_lookup_case(0, [1, 1], [1, 2]),
-        1 => local_lookup_case(1, [1, 1], [1, 2]),
-        2 => local_lookup_case(2, [1, 1], [1, 2]),
-        _ => local_lookup_case(2, [1, 2], [1, 2]),
+        0 => local_lookup_case(0, [1, 1], [1, 2], 0),
+        1 => local_lookup_case(0, [1, 1], [1, 2], 1),
+        2 => local_lookup_case(0, [1, 1], [1, 2], 2),
+        3 => local_lookup_case(1, [1, 1], [1, 2], 0),
+        4 => local_lookup_case(1, [1, 1], [1, 2], 1),
+        5 => local_lookup_case(1, [1, 1], [1, 2], 2),
+        6 => local_lookup_case(2, [1, 1], [1, 2], 0),
+        7 => local_lookup_case(2, [1, 1], [1, 2], 1),
+        8 => local_lookup_case(2, [1, 1], [1, 2], 2),
+        9 => local_lookup_case(2, [1, 2], [1, 2], 0),
+        10 => local_lookup_case(2, [1, 2], [1, 2], 1),
+        _ => local_lookup_case(2, [1, 2], [1, 2], 2),
     }
 }
